@@ -196,8 +196,9 @@ package operator
 
 // Trusted: IDs lists keys of the map; comparePlan returns one of its two arguments (the preference functions are pure).
 //@ func (peersMap).IDs
-//@   assumed
-//@   ensures forall i :: {result[i]} 0 <= i && i < len(result) ==> in(pm, result[i])
+//@   props C08
+//@   ensures [only-keys] forall i :: {result[i]} 0 <= i && i < len(result) ==> in(pm, result[i])
+//@   loop 1 invariant fresharray(ids) && (forall i :: {ids[i]} 0 <= i && i < len(ids) ==> in(pm, ids[i]))
 //@   modifies nothing
 //@ func (*Builder).comparePlan
 //@   assumed
@@ -337,8 +338,11 @@ package operator
 // a statement about all keys the map ranges visited; the engine has no visited-set ghost for map ranges, so that
 // clause stays a precondition of the step loop and is listed as an assumption.)
 //@ func (peersMap).Copy
-//@   assumed
-//@   ensures result != nil && !old(allocated(result)) && (forall s uint64 :: {in(result, s)} in(result, s) == in(pm, s)) && (forall s uint64 :: {result[s]} result[s] == pm[s])
+//@   props C08
+//@   requires allocated(pm) && (pm != nil ==> wfPM(pm))
+//@   ensures [fresh-equal-copy] result != nil && !old(allocated(result)) && (forall s uint64 :: {in(result, s)} in(result, s) == in(pm, s)) && (forall s uint64 :: {result[s]} result[s] == pm[s])
+//@   loop 1 invariant pm2 != nil && pm2 != pm && !old(allocated(pm2)) && (forall s uint64 :: {in(pm2, s)} in(pm2, s) ==> in(pm, s)) && (forall s uint64 :: {pm2[s]} in(pm2, s) ==> pm2[s] == pm[s]) && (forall s uint64 :: {visited(pm, s)} visited(pm, s) ==> in(pm2, s))
+//@   loop 1 modifies pm2[*]
 //@   modifies nothing
 //@ func (*Builder).brief
 //@   assumed
